@@ -273,9 +273,9 @@ func check(c Case) vk.Verdict {
 
 // ---- generator ------------------------------------------------------------------------------------------
 
-var itemPaths = []string{"/", "", "/a", "/a/", "/b", "/a/b", "/:x", "/*", "/a/:y", "/ab", "/:x/b", "/a/:y?"}
-var groupPrefixes = []string{"/", "/api", "/api/", "/v1", "/a", "/API", "/a/b", "/:g", "/v1-"}
-var mountPrefixes = []string{"/m1", "/m2", "/m3/", "/M4", "/m5/x", "/:tenant", "/", "", "/v1-", "/api", "/a/b"}
+var itemPaths = []string{"/", "", "/a", "/a/", "/b", "/a/b", "/:x", "/*", "/a/:y", "/ab", "/:x/b", "/a/:y?", "/r/:id/*", "/+"}
+var groupPrefixes = []string{"/", "/api", "/api/", "/v1", "/a", "/API", "/a/b", "/:g", "/v1-", "/w/*/v"}
+var mountPrefixes = []string{"/m1", "/m2", "/m3/", "/M4", "/m5/x", "/:tenant", "/", "", "/v1-", "/api", "/a/b", "/w/*/v", "/p/+"}
 
 type gen struct {
 	t      *rapid.T
@@ -391,6 +391,8 @@ func fillPath(t *rapid.T, p string) string {
 			}
 		case s == "*":
 			segs[i] = rapid.SampledFrom([]string{"r", "r/s", "a", ""}).Draw(t, "sv")
+		case s == "+":
+			segs[i] = rapid.SampledFrom([]string{"r", "r/s", "a"}).Draw(t, "sv")
 		}
 	}
 	out := strings.Join(segs, "/")
